@@ -60,7 +60,7 @@ func main() {
 		{Name: "gov-tally-bkava", Cfg: cfg, Script: history.ScenarioGovTallyBkava(cfg.GovVotingPeriod), Blocks: 12, MaxTxs: 6, PriceEvery: 5},
 		{Name: "committee-param-change", Cfg: cfg, Script: history.ScenarioCommitteeParamChange(), Blocks: 12, MaxTxs: 6, PriceEvery: 5},
 	}
-	nRandom := c.Budget(14, 80)
+	nRandom := c.Budget(12, 80)
 	for i := 0; i < nRandom; i++ {
 		cf := cfg
 		cf.LiquidationInterval = int64(1 + i%3)
